@@ -513,6 +513,16 @@ let exec (toks : string list) =
              | "validate2" -> cfg_set_validate_func2 s name kk
              | _ -> let ((w2, s1), _) = cfg_set_print_func !w s name kk in w := w2; s1) in
          put ci (upd_sec cfg steps f) sp; std cmd "rc=ok"))
+  | ["unfilter"; c; p] -> with_ctx "unfilter" c (fun ci cfg sp ->
+      let clr (Cfg (n, t, f, o, fi, l, e, _)) = Cfg (n, t, f, o, fi, l, e, None) in
+      match ostr_of_hex p with
+      | None -> put ci (clr cfg) sp; std "unfilter" "rc=ok"
+      | Some path ->
+        let (w1, r) = cfg_getsec !w cfg path in
+        w := w1;
+        (match r with
+         | None -> std "unfilter" "rc=nosec"
+         | Some steps -> put ci (Model.upd_sec cfg steps clr) sp; std "unfilter" "rc=ok"))
   | "filter" :: c :: p :: names -> with_ctx "filter" c (fun ci cfg sp ->
       let set = List.map (fun h -> match ostr_of_hex h with Some s -> s | None -> raise Bad) names in
       let setp (Cfg (n, t, f, o, fi, l, e, _)) = Cfg (n, t, f, o, fi, l, e, Some set) in
